@@ -33,11 +33,14 @@ func TestPropManyNames(t *testing.T) {
 		tab.AddRoute(cap)
 		before := h.ReadTableCounters()
 		base := uint32(2000000000)
+		// how far apart the names' timestamps are: the oldest name is up to a year behind the newest (whatever ages
+		// per-name state out by comparing with other names' timestamps forgets a name that is merely old)
+		step := uint32(rapid.SampledFrom([]int{1, 3, 100}).Draw(t, "tsStep"))
 		for i := 0; i < n; i++ {
 			f0 := forwarded
-			tab.Dispatch([]byte(fmt.Sprintf("%s 1 %d", name(i), base-uint32(i))))
+			tab.Dispatch([]byte(fmt.Sprintf("%s 1 %d", name(i), base-uint32(i)*step)))
 			if forwarded != f0+1 {
-				t.Fatalf("the first point ever sent for name %q (timestamp %d) was rejected after %d other names, each with a newer timestamp", name(i), base-uint32(i), i)
+				t.Fatalf("the first point ever sent for name %q (timestamp %d) was rejected after %d other names, each with a newer timestamp", name(i), base-uint32(i)*step, i)
 			}
 			if i%4096 == 0 {
 				cap.Reset()
@@ -46,7 +49,7 @@ func TestPropManyNames(t *testing.T) {
 		cap.Reset()
 		probes := 0
 		for _, i := range []int{0, 1, n / 3, n / 2, n - 2, n - 1} {
-			ts := base - uint32(i)
+			ts := base - uint32(i)*step
 			for _, c := range []struct {
 				ts  uint32
 				acc bool
